@@ -1071,13 +1071,22 @@ def probe_c09(ctx, pf):
                 for style in ("assign", "slice", "method", "periodic"):
                     if style == "periodic" and gen.AXKIND[cname][ax] == "rad":
                         continue
-                    for consumer in ("explicit", "apply_BCs", "implicit"):
-                        L = {"cls": cname, "faces": [list(map(float, f)) for f in fs], "side": side, "edit": style, "then": consumer}
+                    # start states (round 6): a variable after one implicit step; a variable RETURNED BY THE EXPLICIT SOLVER (it shares the
+                    # BoundaryConditions object of its input and carries no precomputed boundary term); a variable built without one
+                    for consumer, start in [(c_, "implicit-step") for c_ in ("explicit", "apply_BCs", "implicit")] + \
+                                           [("implicit", "explicit-result"), ("apply_BCs+implicit", "explicit-result"), ("implicit", "no-precalc")]:
+                        L = {"cls": cname, "faces": [list(map(float, f)) for f in fs], "side": side, "edit": style, "then": consumer, "start": start}
                         try:
                             with np.errstate(all="ignore"):
                                 init = np.abs(gen.cell_array(rng, mesh))[interior_slices(d)] + 0.5
-                                v = pf.CellVariable(mesh, init)
-                                pf.solvePDE(v, [pf.transientTerm(v, 0.05, 1.0), -pf.diffusionTerm(D)])
+                                if start == "no-precalc":
+                                    v = pf.CellVariable(mesh, init, BCsTerm_precalc=False)
+                                    v.apply_BCs()
+                                else:
+                                    v = pf.CellVariable(mesh, init)
+                                    pf.solvePDE(v, [pf.transientTerm(v, 0.05, 1.0), -pf.diffusionTerm(D)])
+                                if start == "explicit-result":
+                                    v = pf.solveExplicitPDE(v, 0.01, np.zeros(v._value.size))
                                 f = getattr(v.BCs, side)
                                 if style == "assign":
                                     f.a = 0.0 * np.asarray(f.a); f.b = 0.0 * np.asarray(f.b) + 1.0; f.c = 0.0 * np.asarray(f.c) + 3.0
@@ -1095,12 +1104,14 @@ def probe_c09(ctx, pf):
                                     v.apply_BCs(); fresh.apply_BCs()
                                     bad = rel(v._value, fresh._value) > 1e-9
                                 else:
+                                    if consumer == "apply_BCs+implicit":
+                                        v.apply_BCs(); fresh.apply_BCs()
                                     pf.solvePDE(v, [pf.transientTerm(v, 0.05, 1.0), -pf.diffusionTerm(D)])
                                     pf.solvePDE(fresh, [pf.transientTerm(fresh, 0.05, 1.0), -pf.diffusionTerm(D)])
                                     bad = np.all(np.isfinite(fresh._value)) and rel(v._value, fresh._value) > 1e-9
                             n += 1
                             if bad:
-                                ctx.violation(f"c09:{cname}:single-edit:{consumer}", f"{cname}: after editing only the '{side}' side ({style}) {consumer} does not see the edit: result differs from a fresh start", L)
+                                ctx.violation(f"c09:{cname}:single-edit:{consumer}:{start}", f"{cname}: starting from a variable in state '{start}', after editing only the '{side}' side ({style}) {consumer} does not see the edit: result differs from a fresh start", L)
                         except Exception as ex:
                             ctx.violation(f"c09:{cname}:single-edit:raise", f"{cname}: single-side edit ({side}, {style}) then {consumer} raised {type(ex).__name__}: {ex}", L)
     return n
